@@ -11,6 +11,9 @@ import concurrent.futures as cf
 import json, os, random, re, shutil, subprocess, sys, tempfile, time
 
 VERIF = os.path.dirname(os.path.dirname(os.path.abspath(__file__)))
+# evidence of runs against a MODIFIED copy of the repository (bin/mutant, bin/seedcheck set VERIF_EVIDENCE to a scratch
+# directory) must not overwrite the evidence of the tree the checks are registered for
+EVIDENCE_DIR = os.environ.get("VERIF_EVIDENCE") or os.path.join(VERIF, "evidence")
 REPO = os.environ.get("VERIF_REPO", "/repo")
 SPEC = os.path.join(VERIF, "spec")
 NCPU = max(2, min(16, os.cpu_count() or 4))
@@ -327,10 +330,10 @@ def sample(items, k, rng, core=()):
 
 
 def write_evidence(prop, tier, level, coverage, wall, violations, assumptions):
-    os.makedirs(os.path.join(VERIF, "evidence"), exist_ok=True)
+    os.makedirs(EVIDENCE_DIR, exist_ok=True)
     ev = {"property_id": prop, "tier": tier, "seed": seed(), "level": level, "coverage": coverage,
           "assumptions": assumptions, "wall_s": round(wall, 2), "violations": violations}
-    path = os.path.join(VERIF, "evidence", prop + ".json")
+    path = os.path.join(EVIDENCE_DIR, prop + ".json")
     tmp = path + ".tmp"
     with open(tmp, "w") as fh:
         json.dump(ev, fh, indent=1, sort_keys=True)
@@ -339,7 +342,7 @@ def write_evidence(prop, tier, level, coverage, wall, violations, assumptions):
 
 
 def save_replay(prop, name, payload):
-    d = os.path.join(VERIF, "evidence", "replays")
+    d = os.path.join(EVIDENCE_DIR, "replays")
     os.makedirs(d, exist_ok=True)
     path = os.path.join(d, "%s-%s.json" % (prop, re.sub(r"[^A-Za-z0-9_.-]", "_", name)[:80]))
     with open(path, "w") as fh:
